@@ -112,6 +112,8 @@ def check(F, rep, tier):
     dev_iff_dirty_or_ahead(F, rep)
     flags_beat_rules(F, rep)
     hash_len(F, rep)
+    option_plumbing(F, rep)
+    null_is_empty(F, rep)
     hash_purity(F, rep)
     return core.finish(rep, explanation=EXPL, assumptions=ASSUME, trusted=TRUST)
 
@@ -411,6 +413,67 @@ def hash_len(F, rep):
     digits = len(str(2 ** bits - 1)) - 1          # every number with this many digits fits
     if ub <= digits: rep.ok(rule, "every accepted hash length (<= %d) yields a number that fits %s (%d safe digits)" % (ub, ty, digits), nontrivial_key="fit")
     else: rep.bad(rule, "hash-len-exceeds-integer:max%d>%s-digits%d" % (ub, ty, digits), "--hash-branch-len up to %d is accepted but the number is parsed as %s, which only holds every %d-digit number: some branches fail with 'number too large'" % (ub, ty, digits), f.where())
+
+def null_is_empty(F, rep):
+    """R04.6b: a template function argument that is null (no branch: detached HEAD) is the empty text, so that the branch id of "no
+    branch" is the hash of "" - not of the word "null"."""
+    rule = "R04.6"
+    g = F.fn("crate::cli::utils::template::functions::get_string_value")
+    if not rep.anchor(rule, "template::functions::get_string_value", g): return
+    rep.fn_seen(g)
+    verdict = None; seen = False
+    for h in [g] + mir.closures_in(F, g):
+        for sp in mir.sym_paths(h, limit=5000):
+            names = None
+            for i, b in enumerate(sp.blocks[:-1]):
+                t = h.blocks[b]["t"]
+                if t[0] != "switch": continue
+                ds = [st for st in h.blocks[b]["s"] if st[0] == "=" and st[2][0] == "discr" and str(st[2][2]).endswith("Value") and st[1] == t[1][1]]
+                if not ds: continue
+                table = {v: n for v, n in ds[-1][2][3]}
+                nxt = sp.blocks[i + 1]
+                taken = [v for v, tb in t[2] if tb == nxt]
+                names = {table.get(v) for v in taken} if taken and nxt != t[3] else {n for v, n in table.items() if v not in [v2 for v2, tb in t[2]]}
+            if names is None or "Null" not in names: continue
+            seen = True
+            r = sp.ret()
+            empty = (r[0] == "call" and ((str(r[1]).endswith("String::new") and not r[2]) or (r[2] and r[2][0] == ("const", "")))) or r == ("const", "")
+            if not empty: verdict = mir.show(r)[:80]
+    if not seen: rep.undecided(rule, "null-argument-shape", "no match arm for Value::Null found in get_string_value", g.where())
+    elif verdict: rep.bad(rule, "null-argument-not-empty", "a null template argument is turned into %s instead of the empty text: with no branch (detached HEAD, bumped_branch: None) the branch id becomes the hash of that text (e.g. of the word \"null\"), not the documented hash of \"\"" % verdict, g.where())
+    else: rep.ok(rule, "a null template argument is the empty text", nontrivial_key="nullempty")
+
+def option_plumbing(F, rep, ub_doc=10):
+    """R04.8: what the user wrote reaches the flow logic: (a) the rule list is written by argument parsing only - no later step
+    replaces it (an empty list stays empty); (b) no clap-level range on --hash-branch-len narrower than the documented 1-10."""
+    rule = "R04.8"
+    writers = []
+    for p_, g_ in F.fns.items():
+        if "::tests" in p_ or "test_utils" in p_ or "::_::" in p_ or g_.d.get("impl_trait") in ("std::default::Default", "std::clone::Clone", "clap::Args", "clap::FromArgMatches"): continue
+        if "FromArgMatches" in p_ or "clap::Args" in p_: continue
+        for bi, si, st in g_.stmts():
+            if st[0] == "=" and len(st[1]) > 1:
+                fl = [e for e in st[1][1:] if not isinstance(e, str) and e[0] == "f"]
+                if fl and fl[-1][2] == "branch_rules" and "BranchRulesConfig" in str(fl[-1][3]): writers.append((g_, bi))
+    for g_, bi in writers:
+        rep.bad(rule, "rule-list-replaced:" + g_.path.replace("crate::", "").rsplit("::", 1)[-1], "%s assigns branch_config.branch_rules after argument parsing: the rule set that applies is not the one the user gave (e.g. an empty list silently becomes the GitFlow defaults)" % g_.path.rsplit("::", 1)[-1], "%s bb%d line %s" % (g_.where(), bi, g_.blocks[bi]["line"]))
+    if not writers: rep.ok(rule, "branch_config.branch_rules is written by argument parsing only", nontrivial_key="ruleswriter")
+    nrange = 0
+    for p_, g_ in F.fns.items():
+        if "cli::flow::args::main" not in p_ or "::tests" in p_: continue
+        for bi, t in g_.calls():
+            c = mir.callee(t) or ""
+            if not (c.endswith("::range") and "clap" in c and len(t[2]) > 1): continue
+            nrange += 1
+            txt = mir.sym_value(F, g_, t[2][1])
+            nums = [int(x) for x in re.findall(r"(?<![A-Za-z_0-9])(\d+)(?:_[iu](?:\d+|size))?(?![A-Za-z0-9])", txt)]
+            site = "%s bb%d line %s" % (g_.where(), bi, g_.blocks[bi]["line"])
+            if len(nums) < 2: rep.undecided(rule, "clap-range-shape", "a clap value range (%s) whose bounds are not read" % txt[:60], site); continue
+            lo, hi = nums[0], nums[-1]
+            if "RangeInclusive" not in txt and "..=" not in txt: hi -= 1
+            if lo > 1 or hi < ub_doc: rep.bad(rule, "clap-range-narrower", "a clap-level range accepts %d..=%d only, narrower than the documented hash lengths 1-%d: `--hash-branch-len %d` is refused as a usage error" % (lo, hi, ub_doc, ub_doc), site)
+            else: rep.ok(rule, "clap-level range %d..=%d covers the documented lengths" % (lo, hi), sample=site, nontrivial_key="cr%d" % bi)
+    if not nrange: rep.ok(rule, "no clap-level value range on the flow arguments (lengths are checked by validate_hash_branch_len only)", nontrivial_key="norange")
 
 def hash_purity(F, rep):
     rule = "R04.6"
